@@ -18,6 +18,7 @@ import numpy as np
 
 import c18_lib as L
 import npcatalog as C
+import c18_templates  # noqa: F401  (registers the C18-specific sequence-of-quantities templates)
 
 UNITS = ("m", "kg", "K")
 # every second value operand carries a commensurable but differently scaled unit, so that a handler
@@ -30,6 +31,49 @@ STATIC_INPLACE = {"numpy.put", "numpy.place", "numpy.putmask", "numpy.copyto", "
                   "ndarray.sort", "ndarray.partition", "ndarray.fill", "ndarray.put", "ndarray.itemset", "ndarray.resize",
                   "ndarray.setfield", "ndarray.byteswap", "ndarray.__setitem__", "ndarray.setflags"}
 FAULTS = ("valid", "incommensurable", "non-dimensionless", "bad-shape", "bad-kwarg", "int-out", "readonly-out")
+
+
+class FusedOp(C.Op):
+    """ONE array operand standing for a sequence of quantities of the original call (`fuse_call`)"""
+
+    __slots__ = ()
+
+
+def fuse_call(call, kind="f"):
+    """the call with every list/tuple of >= 2 value operands of one group and one shape replaced by ONE array operand
+    (bottom-up, so [[a, b], [c, d]] becomes one 2x2 array): the call form `range=[0, 5] * km` instead of
+    `range=(0 * km, 5 * km)`.  kind 'i': the fused numbers as int64 (None when they are not integral).
+    None when the call has no such sequence."""
+    hit = {"n": 0, "bad": False}
+
+    def walk(x):
+        if isinstance(x, (list, tuple)):
+            ys = [walk(y) for y in x]
+            if (len(ys) >= 2 and all(isinstance(y, C.Op) and y.role == "value" for y in ys)
+                    and len({(y.group, y.dimless, np.shape(y.data)) for y in ys}) == 1):
+                d = np.stack([np.asarray(y.data) for y in ys])
+                if d.dtype.kind not in "fiu":
+                    return type(x)(ys)
+                if kind == "i":
+                    if d.dtype.kind == "f":
+                        if not np.all(d == np.round(d)):
+                            hit["bad"] = True
+                        d = d.astype(np.int64)
+                else:
+                    d = d.astype(np.float64) if d.dtype.kind != "f" else d
+                hit["n"] += 1
+                return FusedOp(d, "value", ys[0].group, ys[0].dimless)
+            return type(x)(ys) if isinstance(x, tuple) else ys
+        if isinstance(x, dict):
+            return {k: walk(v) for k, v in x.items()}
+        return x
+
+    c = copy.copy(call)
+    c.args = [walk(a) for a in copy.deepcopy(call.args)]
+    c.kwargs = {k: walk(v) for k, v in copy.deepcopy(call.kwargs).items()}
+    if hit["n"] == 0 or hit["bad"]:
+        return None
+    return c
 
 
 def _wrap_views(units, out_mode, held, fault=None, pos=None, alt=False):
@@ -51,7 +95,7 @@ def _wrap_views(units, out_mode, held, fault=None, pos=None, alt=False):
             held.append((op, H))
             return H.obj
         uname = "dimensionless" if op.dimless else units[op.group % len(units)]
-        if alt and i % 2 == 1 and uname in ALT:
+        if alt and (i % 2 == 1 or isinstance(op, FusedOp)) and uname in ALT:
             uname = ALT[uname]
         if fault in ("incommensurable", "non-dimensionless") and i == pos:
             uname = FAULT_UNIT
@@ -119,8 +163,52 @@ def inject(call, fault, pos, rng_seed):
     return None
 
 
-def _run(t, call, wrap, held):
+LAST_OBS = []   # [(handler routine, parameter, changed?)] of the last run_case on quantities (correspondence with c18.af.*)
+_BIND = {}
+
+
+def _bind_params(t, args, kwargs, held):
+    """(name of unyt's __array_function__ handler, {index of held operand: parameter of the handler it is bound to});
+    None for methods, custom invocations, functions without a handler, calls the signature refuses"""
+    import inspect
+
+    import unyt._array_functions as AF
+
+    if t.is_method or t._invoke is not None:
+        return None
+    h = AF._HANDLED_FUNCTIONS.get(C.resolve(t.func))
+    if h is None:
+        return None
+    try:
+        ba = inspect.signature(h).bind(*args, **kwargs)
+    except TypeError:
+        return None
+    ids = {id(H.obj): i for i, (_op, H) in enumerate(held)}
+    out = {}
+
+    def walk(x, par):
+        if id(x) in ids:
+            out[ids[id(x)]] = par
+        elif isinstance(x, (list, tuple)):
+            for y in x:
+                walk(y, par)
+        elif isinstance(x, dict):
+            for y in x.values():
+                walk(y, par)
+
+    for par, val in ba.arguments.items():
+        walk(val, par)
+    return h.__name__, out
+
+
+def _run(t, call, wrap, held, bind=False):
     args, kwargs, _objs = call.materialize(wrap)
+    _BIND["last"] = None
+    if bind:
+        try:
+            _BIND["last"] = _bind_params(t, args, kwargs, held)
+        except Exception:  # noqa: BLE001
+            pass
     snaps0 = [L.snap(H.obj, H) for _op, H in held]
     with warnings.catch_warnings():
         warnings.simplefilter("ignore")
@@ -136,13 +224,17 @@ def _run(t, call, wrap, held):
     return exc, snaps0, snaps1
 
 
-def run_case(tid, dk, sc, seed, fault="valid", pos=None, out_mode="unyt", alt=False):
-    """(status, findings): findings = [(key, what)]"""
+def run_case(tid, dk, sc, seed, fault="valid", pos=None, out_mode="unyt", alt=False, fuse=None):
+    """(status, findings): findings = [(key, what)]; fuse in (None, 'f', 'i'): sequences of quantities passed as ONE array"""
     t = [x for x in C.templates() if x.tid == tid][0]
     try:
         call0 = t.instantiate(dk, sc, seed)
     except Exception as e:  # noqa: BLE001
         return "skip-build", []
+    if fuse:
+        call0 = fuse_call(call0, fuse)
+        if call0 is None:
+            return "skip-fuse", []
     call = inject(call0, fault, pos, seed)
     if call is None:
         return "skip-fault", []
@@ -167,12 +259,19 @@ def run_case(tid, dk, sc, seed, fault="valid", pos=None, out_mode="unyt", alt=Fa
         except Exception:  # noqa: BLE001
             pass
     held = []
+    del LAST_OBS[:]
     try:
-        exc, s0, s1 = _run(t, call, _wrap_views(UNITS, out_mode, held, fault, pos, alt), held)
+        exc, s0, s1 = _run(t, call, _wrap_views(UNITS, out_mode, held, fault, pos, alt), held, bind=True)
     except Exception as e:  # noqa: BLE001
         return "skip-wrap", []
     if len(s0) != len(b0):
         return "skip-arity", []
+    bound = _BIND.get("last")
+    if bound is not None:
+        hname, pmap = bound
+        for i, par in pmap.items():
+            dd = [k for k in L.delta(s0[i], s1[i]) if k in ("numbers", "dtype", "base", "guard", "shape")]
+            LAST_OBS.append((hname, par, bool(dd)))
     out = []
     raised = L.exc_class(exc) if exc is not None else None
     for i, (x, y) in enumerate(zip(s0, s1)):
@@ -200,7 +299,7 @@ def run_case(tid, dk, sc, seed, fault="valid", pos=None, out_mode="unyt", alt=Fa
     return status, out
 
 
-def replay_snippet(tid, dk, sc, seed, fault, pos, out_mode, alt, key, harness_dir):
+def replay_snippet(tid, dk, sc, seed, fault, pos, out_mode, alt, key, harness_dir, fuse=None):
     return (
         "import sys, warnings\n"
         "warnings.simplefilter('ignore')\n"
@@ -208,7 +307,7 @@ def replay_snippet(tid, dk, sc, seed, fault, pos, out_mode, alt, key, harness_di
         "import numpy as np\n"
         "np.seterr(all='ignore')\n"
         "import c18_cat as K\n"
-        f"st, found = K.run_case({tid!r}, {dk!r}, {sc!r}, {seed!r}, {fault!r}, {pos!r}, {out_mode!r}, {alt!r})\n"
+        f"st, found = K.run_case({tid!r}, {dk!r}, {sc!r}, {seed!r}, {fault!r}, {pos!r}, {out_mode!r}, {alt!r}, {fuse!r})\n"
         "print('status:', st, '\\nverdict:', found)\n"
         f"assert {key!r} not in [k for k, _ in found], found\n"
     )
@@ -223,6 +322,14 @@ def sweep(job):
     np.seterr(all="ignore")
     ts = C.templates()[lo:hi]
     stats, fails, cases = {}, {}, []
+    obs = {}
+
+    def note():
+        for h, par, ch in LAST_OBS:
+            e = obs.setdefault(h + "\t" + par, [0, 0])
+            e[0] += 1
+            e[1] += 1 if ch else 0
+
     rng = random.Random(f"c18cat:{sseed}:{lo}")
     for t in ts:
         for sc in t.shapes:
@@ -245,11 +352,28 @@ def sweep(job):
                     oms = ("unyt", "bare") if (t.out_form and f in ("valid", "int-out")) else ("unyt",)
                     for om in oms:
                         st, found = run_case(t.tid, dk, sc, dseed, f, p, om, alt)
+                        note()
                         k = f"{f}:{st}"
                         stats[k] = stats.get(k, 0) + 1
                         if not st.startswith("skip"):
                             cases.append((t.tid, sc, dk, f, p, om, alt))
                         for key, what in found:
                             if key not in fails:
-                                fails[key] = dict(tid=t.tid, dk=dk, sc=sc, seed=dseed, fault=f, pos=p, om=om, alt=alt, what=what)
-    return dict(stats=stats, fails=fails, cases=cases)
+                                fails[key] = dict(tid=t.tid, dk=dk, sc=sc, seed=dseed, fault=f, pos=p, om=om, alt=alt, what=what, fuse=None)
+                # the same call with its sequences of quantities passed as ONE array (float and, when integral, int64 numbers),
+                # in the same unit and in a differently scaled commensurable unit
+                if "valid" in faults and not alt:
+                    for fz in ("f", "i"):
+                        if fuse_call(call0, fz) is None:
+                            continue
+                        for a2 in (False, True):
+                            st, found = run_case(t.tid, dk, sc, dseed, "valid", None, "unyt", a2, fz)
+                            note()
+                            k = f"fused-{fz}:{st}"
+                            stats[k] = stats.get(k, 0) + 1
+                            if not st.startswith("skip"):
+                                cases.append((t.tid, sc, dk, "valid", None, "unyt", a2, "fused-" + fz))
+                            for key, what in found:
+                                if key not in fails:
+                                    fails[key] = dict(tid=t.tid, dk=dk, sc=sc, seed=dseed, fault="valid", pos=None, om="unyt", alt=a2, what=what, fuse=fz)
+    return dict(stats=stats, fails=fails, cases=cases, obs=obs)
